@@ -43,6 +43,14 @@ func (o *vsOut) emit(spec, trace string, s *vsSched, note string) {
 	for k, v := range s.siteHits {
 		o.sites[k] += v
 	}
+	if s.status == "stuck" {
+		// the running actor did not reach a schedule point within the watchdog (a blocking operation outside the
+		// instrumentation, or a real deadlock).  Its goroutine is still alive and would disturb later runs of this
+		// process, so stop here; lib/schedrun.py reports it.
+		fmt.Fprintf(o.w, "info aborted-after-stuck run=%d\n", o.runs)
+		o.w.Flush()
+		os.Exit(3)
+	}
 }
 
 func vsPreempts(cs []vsChoice) int {
